@@ -7,7 +7,7 @@ use crate::wire::*;
 use serde_json::{Value, json};
 use simplesl::{Code, Interpreter, variable::Variable};
 
-const NAMES: [&str; 26] = ["x", "c", "f", "g", "inc", "ts", "ta", "y", "z", "a", "p", "q", "r", "w", "it", "n", "u", "ua", "tt", "default", "ints", "dd", "bf", "bb", "lv", "h_0"];
+const NAMES: [&str; 29] = ["x", "c", "f", "g", "inc", "ts", "ta", "sp", "sq", "se", "y", "z", "a", "p", "q", "r", "w", "it", "n", "u", "ua", "tt", "default", "ints", "dd", "bf", "bb", "lv", "h_0"];
 
 #[derive(Clone, Debug, PartialEq)]
 enum Out {
